@@ -555,7 +555,9 @@ C05_AckMeansRegisteredOrCompletedT ==
      LET a == reqs[Last.r].args
          cbid == IF reqs[Last.r].kind = "CreateCallback" THEN CallbackId(a.rootId, a.promiseId)
                  ELSE SubscriptionId(a.promiseId, a.id)
-     IN C05_AckMeansRegisteredOrCompleted(db, The(Last.body.promise), cbid)
+         mesg == IF reqs[Last.r].kind = "CreateCallback" THEN [type |-> "resume", root |-> a.rootId, leaf |-> a.promiseId]
+                 ELSE [type |-> "notify", root |-> a.promiseId, leaf |-> ""]
+     IN C05_AckMeansRegisteredOrCompleted(db, The(Last.body.promise), cbid, mesg)
 
 \* --- C06
 MutationKinds == {"CreatePromise", "CreatePromiseAndTask", "CompletePromise", "CreateCallback",
@@ -640,6 +642,10 @@ C10_NotEarlyT == \A i \in 1..(Len(path) - 1) : C10_NotEarly(path[i], path[i + 1]
 C10_FiringCreatesPromiseT == Steps(C10_FiringCreatesPromise)
 C10_NextAfterCreationT == C10_NextAfterCreation(db)
 C10_ScheduleChanges == IsStep => chk.tables \cap {"schedules", "sorder"} = {}
+\* the promise of an occurrence is created in the transaction that advances the schedule: a firing
+\* transaction without the advance (or any other change the sweep makes that level A does not know) is refused
+C10_FiringIsOneStep == IsCommit => (chk.drift \in {"", "orphan firing"}
+                                    /\ ("SchedulePromises" \in chk.owners => chk.tables = {}))
 C10_ScheduleReplies == (IsRespond /\ reqs[Last.r].kind \in ScheduleKinds) => chk.resp = ""
 
 \* --- C14
